@@ -9,17 +9,21 @@ import Asn1cModel.Proofs.CTables
   Spec  = Spec.Constraint (X.680 set semantics, X.691 10.3 / X.696 8.2 visibility, layouts).
   Helper lemmas: Proofs/CRange.lean, Proofs/CRangeCompute.lean, Proofs/CRangeChain.lean, Proofs/CTables.lean.
 
-  Guard domain of the `_partial` theorems (`DomV`, `NonDeg`, `LitsOK`):
+  Domain of the theorems (`DomV`, `Written`, `LitsOK`, non-emptiness):
   * chains of serially applied constraints and type references whose members are built from single
     values, ranges with MIN/MAX, `|`, `^`, `EXCEPT`, parentheses; every member may carry an
-    extension marker (only the last one counts, X.680: the pull-up strips the others) except a
-    non-last own constraint of a referencing type (`own_nonlast_marker_kept_cex`), and never with
-    additions (finding F11: additions are merged into the root);
-  * no operand denotes the empty set (X.680 forbids empty results; asn1c's `empty_constraint`
-    flag is sticky, see `empty_operand_poisons_union_cex`);
-  * every literal lies strictly inside the `intmax_t` range (the two INTMAX tests of `_range_split`
-    then never fire; the boundary values themselves are covered by the correspondence only);
+    extension marker, with or without extension additions (only the marker of the last one counts:
+    the pull-up strips the others, own constraints of a referencing type included);
+  * ranges as the grammar writes them (`Written`: lower end a value or MIN, upper end a value or MAX);
+  * the constraint as a whole denotes a non-empty set (X.680 forbids the empty one; operands may be
+    empty: asn1c's `empty_constraint` flag is then set on the operand and dropped by the union);
+  * every literal lies strictly inside the range of the compiler's own 128-bit `asn1c_integer_t`
+    (the two limit tests of `_range_split` then never fire), and for the PER table the range is
+    narrower than 2^126 (beyond that the emitter's `cover *= 2` loop gives up with FATAL);
   * the model's split loop did not run out of fuel (`computeTop … = .ok r`; never observed).
+  Extension additions are invisible to the PER tables (CPR_PER_root_only), to the printed PER-visible
+  line (strict PER visibility) and to OER; the flag-less "practical" range that the generated
+  validity checker uses keeps them (`AddsInvisible p ∨ NoAdds c`).
 -/
 namespace Asn1c.Props.C09
 open Asn1c.Impl.CRange Asn1c.Impl.CTables Asn1c.Impl.ConsParse Asn1c.Spec.Constraint
@@ -50,15 +54,17 @@ theorem canonical_is_normal_form (l₁ l₂ : List Iv) (g₁ : Good l₁) (g₂ 
 
 /-! ## the computed range is the effective constraint -/
 
-/-- **crange_effective_partial** (INTEGER value constraints).  On the guard domain, what
+/-- **crange_effective** (INTEGER value constraints).  What
     `asn1constraint_compute_constraint_range` returns for the combined constraints of a type is the
     canonical interval list of the set the standards make visible:
-    * PER / "practical" mode (no strict OER visibility): the PER-visible root `Spec.visible`
+    * PER (tables: CPR_PER_root_only; printed line: strict PER visibility) and, without additions,
+      the flag-less "practical" mode: the PER-visible root `Spec.visible`
       (X.691 10.3: EXCEPT ignored, extensible ⇒ root only) and the extensible flag is
       `Spec.extensible` (that of the last serially applied constraint);
     * OER mode: `Spec.oerVisible` (X.696 8.2.4: an extensible constraint is not visible), no flags. -/
-theorem crange_effective_partial {p : Params} (hreq : p.req = .value) (hc : p.compat = true) (hn : p.nkm = false)
-    {c : Cons} (hd : DomV c) (hnd : NonDeg ISet.univ c) (hl : LitsOK c) {r : Range}
+theorem crange_effective {p : Params} (hreq : p.req = .value) (hc : p.compat = true) (hn : p.nkm = false)
+    {c : Cons} (hd : DomV c) (hw : Written c) (hl : LitsOK c) (hne : ∃ y, visible ISet.univ c y = true)
+    (hadd : AddsInvisible p ∨ NoAdds c) {r : Range}
     (h : computeTop p (some (combined c)) = .ok r) :
     if p.strictOER = true then Repr r (oerVisible ISet.univ c) ∧ r.Clean
     else Repr r (visible ISet.univ c) ∧ r.ext = extensible c ∧ r.notPER = false := by
@@ -67,7 +73,7 @@ theorem crange_effective_partial {p : Params} (hreq : p.req = .value) (hc : p.co
   have hm : mmEff p none = none := by unfold mmEff; rw [hreq]
   have hcl : (rangeOf (mmEff p none)).Clean := by rw [hm]; exact repr_new.2
   rw [show combined c = .set (combinedEls c) from rfl, compute_eq_body hc hn _ _ _ hcl, hm] at h
-  obtain ⟨res, h1, h2⟩ := chain_top hc hn hd repr_new.1 repr_new.2 hnd hl none
+  obtain ⟨res, h1, h2⟩ := chain_top hc hn hd repr_new.1 repr_new.2 hw hl hne hadd none
   have h' : (andLoop p true (combinedEls c) Range.new none true).1 = .ok r := h
   rw [h1] at h'
   simp only at h'
@@ -78,10 +84,11 @@ theorem crange_effective_partial {p : Params} (hreq : p.req = .value) (hc : p.co
 
 
 
-/-- **crange_size_effective_partial**: the same for one SIZE constraint `SIZE(root)` /
-    `SIZE(root, ...)` on OCTET STRING-like types (parent set: the naturals). -/
-theorem crange_size_effective_partial {p : Params} (hreq : p.req = .size) (hc : p.compat = true) (hn : p.nkm = false)
-    {a : Cons} (hs : IsSpec a) (hnd : NonDeg ISet.nat a) (hl : LitsOK a) {r : Range}
+/-- **crange_size_effective**: the same for one SIZE constraint `SIZE(root)` / `SIZE(root, ...)` /
+    `SIZE(root, ..., additions)` on OCTET STRING-like types (parent set: the naturals). -/
+theorem crange_size_effective {p : Params} (hreq : p.req = .size) (hc : p.compat = true) (hn : p.nkm = false)
+    {a : Cons} (hs : IsSpec a) (hw : Written a) (hl : LitsOK a) (hne : ∃ y, visible ISet.nat a y = true)
+    (hadd : AddsInvisible p ∨ NoAdds a) {r : Range}
     (h : computeTop p (some (combined (.size a))) = .ok r) :
     if p.strictOER = true then Repr r (oerVisible ISet.nat (.size a)) ∧ r.Clean
     else Repr r (visible ISet.nat (.size a)) ∧ r.ext = extensible (.size a) ∧ r.notPER = false := by
@@ -108,7 +115,7 @@ theorem crange_size_effective_partial {p : Params} (hreq : p.req = .size) (hc : 
     show (if (p.req == Req.size) = true then _ else _) = _
     simp only [hreq, beq_self_eq_true, if_true]
     rw [compute_eq_body hc hn _ _ _ hcl2, hm2, hce]; rfl
-  obtain ⟨res, h1, h2⟩ := chain_top hc hn hd repr_sizeDefault.1 repr_sizeDefault.2 hnd hl (some sizeDefault)
+  obtain ⟨res, h1, h2⟩ := chain_top hc hn hd repr_sizeDefault.1 repr_sizeDefault.2 hw hl hne hadd (some sizeDefault)
   rw [h1] at hsize
   rw [andLoop] at h'
   simp only [if_true] at h'
@@ -164,14 +171,15 @@ theorem crange_size_effective_partial {p : Params} (hreq : p.req = .size) (hc : 
 
 
 
-/-- **crange_hull_partial**: `left`/`right` of the computed range are the lower/upper bound of
+/-- **crange_hull**: `left`/`right` of the computed range are the lower/upper bound of
     the effective constraint (MIN/MAX exactly when the set is unbounded on that side) -/
-theorem crange_hull_partial {p : Params} (hreq : p.req = .value) (hc : p.compat = true) (hn : p.nkm = false)
-    {c : Cons} (hd : DomV c) (hnd : NonDeg ISet.univ c) (hl : LitsOK c) {r : Range}
+theorem crange_hull {p : Params} (hreq : p.req = .value) (hc : p.compat = true) (hn : p.nkm = false)
+    {c : Cons} (hd : DomV c) (hw : Written c) (hl : LitsOK c) (hne : ∃ y, visible ISet.univ c y = true)
+    (hadd : AddsInvisible p ∨ NoAdds c) {r : Range}
     (h : computeTop p (some (combined c)) = .ok r) :
     let S := if p.strictOER = true then oerVisible ISet.univ c else visible ISet.univ c
     LowerBound S r.left.bound ∧ UpperBound S r.right.bound ∧ r.left ≠ .max ∧ r.right ≠ .min := by
-  have := crange_effective_partial hreq hc hn hd hnd hl h
+  have := crange_effective hreq hc hn hd hw hl hne hadd h
   by_cases hso : p.strictOER = true
   · simp only [hso, if_true] at this ⊢
     exact ⟨this.1.lowerBound.1, this.1.upperBound.1, this.1.lowerBound.2, this.1.upperBound.2⟩
@@ -184,15 +192,15 @@ theorem crange_hull_partial {p : Params} (hreq : p.req = .value) (hc : p.compat 
 /-- **per_table_eq_layout**: the `asn_per_constraint_t` emitted for a canonical range of the set
     `S` is the X.691 layout of the effective constraint (lb, ub) of `S`:
     no lower bound → unconstrained; lower bound only → semi-constrained at lb; both → constrained
-    with `range_bits` = the least n with ub − lb + 1 ≤ 2^n.  The extensible flag is the range's,
-    except that asn1c drops it together with the bounds when there is no lower bound
-    (`unbounded_extensible_loses_bit_cex`). -/
+    with `range_bits` = the least n with ub − lb + 1 ≤ 2^n (for ranges narrower than 2^126: the
+    emitter computes in the 128-bit `asn1c_integer_t`).  The extensible flag (X.691 12.1: the
+    extension bit) is the range's in every form. -/
 theorem per_table_eq_layout {r : Range} {S : ISet} (hr : Repr r S) (hnp : r.notPER = false)
     {lb ub : Option Int} (hlb : LowerBound S lb) (hub : UpperBound S ub) :
     match perForm lb ub with
-    | .unconstrained => perConstraint (some r) = PerC.unconstrained
+    | .unconstrained => perConstraint (some r) = ⟨.unconstrained, r.ext, -1, -1, 0, 0⟩
     | .semi l => perConstraint (some r) = ⟨.semi, r.ext, -1, -1, l, 0⟩
-    | .constrained l u =>
+    | .constrained l u => u - l < 2 ^ 126 →
       ∃ n : Nat, IsRangeBits (u - l + 1) n ∧
         perConstraint (some r) = ⟨.constrained, r.ext, n, effBits (1 + u - l) u, l, u⟩ := by
   obtain ⟨hL, hL'⟩ := hr.lowerBound
@@ -200,7 +208,6 @@ theorem per_table_eq_layout {r : Range} {S : ISet} (hr : Repr r S) (hnp : r.notP
   have e1 := lowerBound_unique hlb hL
   have e2 := upperBound_unique hub hU
   subst e1 e2
-  have hlb' := hr.left_bnd; have hrb' := hr.right_bnd
   unfold perConstraint
   simp only [hr.incompat, hnp, Bool.or_self, Bool.false_eq_true, if_false, hr.empty]
   cases hl : r.left with
@@ -212,8 +219,7 @@ theorem per_table_eq_layout {r : Range} {S : ISet} (hr : Repr r S) (hnp : r.notP
     | max => simp [perForm, Edge.bound]
     | val u =>
       simp only [perForm, Edge.bound]
-      have b1 := hlb' l hl; have b2 := hrb' u hu
-      simp only [INTMAX_MIN, INTMAX_MAX] at b1 b2
+      intro hwide
       obtain ⟨n, hn1, hn2⟩ := rangeBits_spec (r := 1 + u - l) (by
         have : (2:Int) ^ 126 = 85070591730234615865843651857942052864 := by norm_num
         omega)
@@ -235,8 +241,9 @@ theorem per_size_effective_bits {l u : Int} (hl : 0 ≤ l) (hlu : l ≤ u) (hu :
 
 
 /-- **oer_table_eq_layout**: the `asn_oer_constraints_t` fields emitted for a canonical range
-    without OER-invisible parts are the X.696 10.2 width/sign of the effective constraint, and the
-    fixed size of X.696 13/14/17 (−1 = length determinant). -/
+    without OER-invisible parts are the X.696 10.2 width/sign of the effective constraint (bounds
+    beyond 64 bits included: variable length), and the fixed size of X.696 13/14/17
+    (−1 = length determinant). -/
 theorem oer_table_eq_layout {r : Range} {S : ISet} (hr : Repr r S) (hno : r.notOER = false)
     {lb ub : Option Int} (hlb : LowerBound S lb) (hub : UpperBound S ub) :
     oerValue (some r) = ⟨(oerWidth lb ub).1, if (oerWidth lb ub).2 then 1 else 0⟩ ∧
@@ -246,7 +253,6 @@ theorem oer_table_eq_layout {r : Range} {S : ISet} (hr : Repr r S) (hno : r.notO
   have e1 := lowerBound_unique hlb hL
   have e2 := upperBound_unique hub hU
   subst e1 e2
-  have hlb' := hr.left_bnd; have hrb' := hr.right_bnd
   unfold oerValue oerSize
   simp only [hr.incompat, hno, Bool.or_self, Bool.false_eq_true, if_false]
   cases hl : r.left with
@@ -259,16 +265,13 @@ theorem oer_table_eq_layout {r : Range} {S : ISet} (hr : Repr r S) (hno : r.notO
       refine ⟨?_, fun _ => by simp [oerFixedSize, Edge.bound]⟩
       by_cases h0 : 0 ≤ l <;> simp [oerWidth, Edge.bound, h0]
     | val u =>
-      have b1 := hlb' l hl; have b2 := hrb' u hu
-      simp only [INTMAX_MIN, INTMAX_MAX] at b1 b2
       have hlu : l ≤ u := by
         rw [hl] at hL; rw [hu] at hU
         exact hL.2 u hU.1
       refine ⟨?_, fun hnat => ?_⟩
       · simp only [oerWidth, Edge.bound]
         by_cases h0 : 0 ≤ l
-        · have hmod : u % 18446744073709551616 = u := Int.emod_eq_of_lt (by omega) (by omega)
-          simp only [h0, if_true, ge_iff_le, hmod]
+        · simp only [h0, if_true, ge_iff_le]
           norm_num
           split_ifs <;> first | rfl | omega
         · simp only [h0, if_false, ge_iff_le]
@@ -283,26 +286,31 @@ theorem oer_table_eq_layout {r : Range} {S : ISet} (hr : Repr r S) (hno : r.notO
 
 
 /-- the parameters of `asn1constraint_compute_PER_range` / `…_OER_range` for an INTEGER value request -/
-def perP : Params := { req := .value }
+def perP : Params := { req := .value, rootOnly := true }
 def oerP : Params := { req := .value, strictOER := true }
 
-/-- **same_set_same_layout** (INTEGER): two constraints of the guard domain that asn1c accepts,
+/-- **same_set_same_layout** (INTEGER): two constraints of the domain that asn1c accepts,
     with the same PER-visible root set and the same extensibility, get the same
     `asn_per_constraint_t`; with the same OER-visible set, the same `asn_oer_constraints_t` value
     part — hence (with the codecs reading only these tables) identical encodings of every value.
     For EXCEPT-free constraints the visible root is the root (`visible_eq_root`). -/
 theorem same_set_same_layout {c₁ c₂ : Cons} (d₁ : DomV c₁) (d₂ : DomV c₂)
-    (n₁ : NonDeg ISet.univ c₁) (n₂ : NonDeg ISet.univ c₂) (l₁ : LitsOK c₁) (l₂ : LitsOK c₂)
+    (w₁ : Written c₁) (w₂ : Written c₂) (l₁ : LitsOK c₁) (l₂ : LitsOK c₂)
+    (n₁ : ∃ y, visible ISet.univ c₁ y = true)
     {p₁ p₂ o₁ o₂ : Range}
     (hp₁ : computeTop perP (some (combined c₁)) = .ok p₁) (hp₂ : computeTop perP (some (combined c₂)) = .ok p₂)
     (ho₁ : computeTop oerP (some (combined c₁)) = .ok o₁) (ho₂ : computeTop oerP (some (combined c₂)) = .ok o₂)
     (hvis : ∀ y, visible ISet.univ c₁ y = visible ISet.univ c₂ y) (hext : extensible c₁ = extensible c₂)
     (hoer : ∀ y, oerVisible ISet.univ c₁ y = oerVisible ISet.univ c₂ y) :
     emitTables true false false (some (combined c₁)) = emitTables true false false (some (combined c₂)) := by
-  have a₁ := crange_effective_partial (p := perP) rfl rfl rfl d₁ n₁ l₁ hp₁
-  have a₂ := crange_effective_partial (p := perP) rfl rfl rfl d₂ n₂ l₂ hp₂
-  have b₁ := crange_effective_partial (p := oerP) rfl rfl rfl d₁ n₁ l₁ ho₁
-  have b₂ := crange_effective_partial (p := oerP) rfl rfl rfl d₂ n₂ l₂ ho₂
+  have n₂ : ∃ y, visible ISet.univ c₂ y = true := by
+    obtain ⟨y, hy⟩ := n₁; exact ⟨y, by rw [← hvis y]; exact hy⟩
+  have aP : AddsInvisible perP := Or.inr (Or.inl rfl)
+  have aO : AddsInvisible oerP := Or.inl rfl
+  have a₁ := crange_effective (p := perP) rfl rfl rfl d₁ w₁ l₁ n₁ (Or.inl aP) hp₁
+  have a₂ := crange_effective (p := perP) rfl rfl rfl d₂ w₂ l₂ n₂ (Or.inl aP) hp₂
+  have b₁ := crange_effective (p := oerP) rfl rfl rfl d₁ w₁ l₁ n₁ (Or.inl aO) ho₁
+  have b₂ := crange_effective (p := oerP) rfl rfl rfl d₂ w₂ l₂ n₂ (Or.inl aO) ho₂
   simp only [perP, oerP, Bool.false_eq_true, if_false, if_true] at a₁ a₂ b₁ b₂
   obtain ⟨ra₁, ea₁, na₁⟩ := a₁; obtain ⟨ra₂, ea₂, na₂⟩ := a₂
   obtain ⟨rb₁, cb₁⟩ := b₁; obtain ⟨rb₂, cb₂⟩ := b₂
@@ -312,8 +320,8 @@ theorem same_set_same_layout {c₁ c₂ : Cons} (d₁ : DomV c₁) (d₂ : DomV 
     simp only [perConstraint, ra₁.incompat, ra₂.incompat, na₁, na₂, u1, u2, ra₁.empty, ra₂.empty, ea₁, ea₂, hext]
   have hO : oerValue (some o₁) = oerValue (some o₂) := by
     simp only [oerValue, rb₁.incompat, rb₂.incompat, cb₁.2.1, cb₂.2.1, v1, v2]
-  have hp₁' : computeTop { req := .value, compat := true, nkm := false } (some (combined c₁)) = .ok p₁ := hp₁
-  have hp₂' : computeTop { req := .value, compat := true, nkm := false } (some (combined c₂)) = .ok p₂ := hp₂
+  have hp₁' : computeTop { req := .value, compat := true, nkm := false, rootOnly := true } (some (combined c₁)) = .ok p₁ := hp₁
+  have hp₂' : computeTop { req := .value, compat := true, nkm := false, rootOnly := true } (some (combined c₂)) = .ok p₂ := hp₂
   have ho₁' : computeTop { req := .value, compat := true, nkm := false, strictOER := true } (some (combined c₁)) = .ok o₁ := ho₁
   have ho₂' : computeTop { req := .value, compat := true, nkm := false, strictOER := true } (some (combined c₂)) = .ok o₂ := ho₂
   simp only [emitTables, hp₁', hp₂', ho₁', ho₂', resRange, hP, hO]
@@ -348,89 +356,98 @@ theorem visible_eq_root : ∀ (c : Cons) (P : ISet), NoExcept c → visible P c 
   | refine a b iha ihb => intro P h; simp only [visible, root, iha P h.1, ihb _ h.2]
 
 
-/-! ## counter-examples for the regions the guards exclude, and non-vacuity -/
+/-! ## the former counter-examples (findings F11, F91–F95, repaired), and non-vacuity -/
 
 
 
-/-- **F11** `INTEGER (1..5, ..., 7..9)`: the extension addition 7..9 ends up in the PER root:
-    asn1c emits (1..9,...) / 4 bits although the effective root is 1..5 (3 bits). -/
-theorem ext_addition_in_root_cex :
+/-- **F11** (repaired) `INTEGER (1..5, ..., 7..9)`: the extension addition 7..9 no longer ends up in
+    the PER root: (1..5,...) / 3 bits, the effective root; the flag-less "practical" range of the
+    validity checker still holds the additions (7..9 are values of the type). -/
+theorem ext_addition_root_only :
     let c := Cons.exta (.range (.val 1) (.val 5)) (.range (.val 7) (.val 9))
-    (emitTables true false false (some (combined c))).perValue = ⟨.constrained, true, 4, 4, 1, 9⟩ ∧
-    UpperBound (visible ISet.univ c) (some 5) ∧ IsRangeBits 5 3 := by
-  refine ⟨by decide +kernel, ⟨by decide +kernel, fun x hx => ?_⟩, by decide +kernel, fun j hj => ?_⟩
+    (emitTables true false false (some (combined c))).perValue = ⟨.constrained, true, 3, 3, 1, 5⟩ ∧
+    UpperBound (visible ISet.univ c) (some 5) ∧ IsRangeBits 5 3 ∧
+    computeTop { req := .value } (some (combined c)) =
+      .ok { left := .val 1, right := .val 9, els := [⟨.val 1, .val 5⟩, ⟨.val 7, .val 9⟩], ext := true, notOER := true } := by
+  refine ⟨by decide +kernel, ⟨by decide +kernel, fun x hx => ?_⟩, ⟨by decide +kernel, fun j hj => ?_⟩, by decide +kernel⟩
   · simp [visible, End.below, End.above, ISet.univ] at hx; omega
   · have : j = 0 ∨ j = 1 ∨ j = 2 := by omega
     rcases this with rfl | rfl | rfl <;> decide
 
-/-- **F31** `T1 ::= INTEGER (1..5)`, `T2 ::= T1 (1..5, ...)(2..3)`: `_remove_extensions` is not
-    applied to the own constraints of a referencing type, the non-last marker survives and T2 is
-    emitted extensible although only its last constraint counts (X.680 50.x). -/
-theorem own_nonlast_marker_kept_cex :
+/-- **F91** (repaired) `T1 ::= INTEGER (1..5)`, `T2 ::= T1 (1..5, ...)(2..3)`: `_remove_extensions`
+    is applied to the own constraints of a referencing type as well, only the last one keeps its
+    marker (X.680 50.x): T2 is (2..3), not extensible. -/
+theorem own_nonlast_marker_dropped :
     let c := Cons.refine (.range (.val 1) (.val 5)) (.serial (.ext (.range (.val 1) (.val 5))) (.range (.val 2) (.val 3)))
-    (emitTables true false false (some (combined c))).perValue = ⟨.constrained, true, 1, 1, 2, 3⟩ ∧
+    (emitTables true false false (some (combined c))).perValue = ⟨.constrained, false, 1, 1, 2, 3⟩ ∧
     extensible c = false := by
   exact ⟨by decide +kernel, rfl⟩
 
-/-- **F32** `INTEGER (1..5 ^ 7..9 | 12)`: the empty first operand leaves `empty_constraint` set on
-    the whole union; the type that denotes {12} gets no PER constraint at all. -/
-theorem empty_operand_poisons_union_cex :
+/-- **F92** (repaired) `INTEGER (1..5 ^ 7..9 | 12)`: the empty first operand no longer leaves
+    `empty_constraint` set on the whole union; the type denotes {12} and is emitted as such. -/
+theorem empty_operand_in_union :
     let c := Cons.union (.inter (.range (.val 1) (.val 5)) (.range (.val 7) (.val 9))) (.single 12)
-    (emitTables true false false (some (combined c))).perValue = PerC.unconstrained ∧
+    (emitTables true false false (some (combined c))).perValue = ⟨.constrained, false, 0, 0, 12, 12⟩ ∧
     LowerBound (visible ISet.univ c) (some 12) ∧ UpperBound (visible ISet.univ c) (some 12) := by
   refine ⟨by decide +kernel, ⟨by decide +kernel, fun x hx => ?_⟩, ⟨by decide +kernel, fun x hx => ?_⟩⟩ <;>
   · simp [visible, End.below, End.above, ISet.univ] at hx; omega
 
-/-- **F33** `INTEGER (0..18446744073709551616)`: the OER width test casts the upper bound to
-    `unsigned long long`; 2^64 becomes 0 and the type gets a 4-octet unsigned encoding
-    (X.696 10.2: no fixed width beyond 2^64−1). -/
-theorem oer_width_above_2_64_cex :
+/-- **F93** (repaired) `INTEGER (0..18446744073709551616)`: the OER width test no longer casts the
+    upper bound to `unsigned long long`; beyond 2^64−1 there is no fixed width (X.696 10.2). -/
+theorem oer_width_above_2_64 :
     let c := Cons.range (.val 0) (.val 18446744073709551616)
-    (emitTables true false false (some (combined c))).oerValue = ⟨4, 1⟩ ∧
+    (emitTables true false false (some (combined c))).oerValue = ⟨0, 1⟩ ∧
     oerWidth (some 0) (some 18446744073709551616) = (0, true) := by
   exact ⟨by decide +kernel, by decide +kernel⟩
 
-/-- **F34** `INTEGER (MIN..5, ...)`: without a lower bound asn1c emits APC_UNCONSTRAINED and drops
-    APC_EXTENSIBLE, so the extension bit of X.691 12.1 is never produced. -/
-theorem unbounded_extensible_loses_bit_cex :
+/-- **F94** (repaired) `INTEGER (MIN..5, ...)`: without a lower bound asn1c emits
+    APC_UNCONSTRAINED | APC_EXTENSIBLE: the extension bit of X.691 12.1 is produced. -/
+theorem unbounded_extensible_keeps_bit :
     let c := Cons.ext (.range .min (.val 5))
-    (emitTables true false false (some (combined c))).perValue = PerC.unconstrained ∧
-    extensible c = true ∧ PerC.unconstrained.ext = false := by
-  exact ⟨by decide +kernel, rfl, rfl⟩
+    (emitTables true false false (some (combined c))).perValue = ⟨.unconstrained, true, -1, -1, 0, 0⟩ ∧
+    extensible c = true := by
+  exact ⟨by decide +kernel, rfl⟩
 
-/-- **F95** `INTEGER ((2..9223372036854775807 | 9223372036854775809))`: `asn1c_integer_t` is
-    128-bit in this build but `_range_split` still stops at INTMAX_MAX ("We've hit the limit
-    here"): the piece of the parent (MIN..MAX) above 2^63−1 is dropped and with it the value
-    2^63+1 of the constraint. -/
-theorem split_beyond_intmax_cex :
+/-- **F95** (repaired) `INTEGER ((2..9223372036854775807 | 9223372036854775809))`: `_range_split`
+    stops at the limits of the 128-bit `asn1c_integer_t`, not at INTMAX_MAX: the piece of the parent
+    (MIN..MAX) above 2^63−1 is kept and with it the value 2^63+1 of the constraint. -/
+theorem split_beyond_intmax :
     let c := Cons.paren (.union (.range (.val 2) (.val 9223372036854775807)) (.single 9223372036854775809))
-    computeTop perP (some (combined c)) = .ok { left := .val 2, right := .val 9223372036854775807 } ∧
+    computeTop perP (some (combined c)) =
+      .ok { left := .val 2, right := .val 9223372036854775809,
+            els := [⟨.val 2, .val 9223372036854775807⟩, ⟨.val 9223372036854775809, .val 9223372036854775809⟩] } ∧
     visible ISet.univ c 9223372036854775809 = true := by
   exact ⟨by decide +kernel, by decide +kernel⟩
 
-/-- the hypotheses of the `_partial` theorems are satisfiable: `T1 ::= INTEGER (1..10 | 20)`,
+/-- the hypotheses of the theorems are satisfiable: `T1 ::= INTEGER (1..10 | 20)`,
     `T2 ::= T1 ((2..5) ^ (3..8), ...)` -/
 example :
     let c := Cons.refine (.union (.range (.val 1) (.val 10)) (.single 20))
                (.ext (.inter (.paren (.range (.val 2) (.val 5))) (.paren (.range (.val 3) (.val 8)))))
-    DomV c ∧ LitsOK c ∧
+    DomV c ∧ Written c ∧ LitsOK c ∧ visible ISet.univ c 3 = true ∧ NoAdds c ∧
     computeTop perP (some (combined c)) = .ok { left := .val 3, right := .val 5, ext := true, notOER := true } ∧
     computeTop oerP (some (combined c)) = .ok { left := .val 1, right := .val 20, els := [⟨.val 1, .val 10⟩, ⟨.val 20, .val 20⟩] } := by
-  refine ⟨?_, ?_, by decide +kernel, by decide +kernel⟩
-  · simp [DomV, IsChainAny, IsLevelAny, IsLevelLast, IsSpec, IsElem]
-  · simp [LitsOK, EndOK, INTMAX_MIN, INTMAX_MAX]
+  refine ⟨?_, ?_, ?_, by decide +kernel, ?_, by decide +kernel, by decide +kernel⟩
+  · simp [DomV, IsChainAny, IsLevelAny, IsSpec, IsElem]
+  · simp [Written]
+  · simp [LitsOK, EndOK, ASN_INTEGER_MIN, ASN_INTEGER_MAX]
+  · intro s hs r a; simp [specs] at hs; rcases hs with rfl | rfl <;> simp
 
 
-/-- … also with markers that the pull-up strips: `T1 ::= INTEGER (1..10, ...)(2..8, ...)`,
-    `T2 ::= T1 (MIN..5)` is (2..5), not extensible, for PER and OER alike -/
+/-- … also with markers that the pull-up strips, on own constraints of a referencing type too, with
+    an empty operand and with extension additions:
+    `T1 ::= INTEGER (1..10, ...)(2..8, ...)`, `T2 ::= T1 (MIN..5, ..., 20)(3..4 ^ 5 | 2..4, ..., 5)` is
+    (2..4,...) for PER, (2..5) for OER -/
 example :
     let c := Cons.refine (.serial (.ext (.range (.val 1) (.val 10))) (.ext (.range (.val 2) (.val 8))))
-               (.range .min (.val 5))
-    DomV c ∧ LitsOK c ∧ extensible c = false ∧
-    computeTop perP (some (combined c)) = .ok { left := .val 2, right := .val 5 } ∧
+               (.serial (.exta (.range .min (.val 5)) (.single 20))
+                 (.exta (.union (.inter (.range (.val 3) (.val 4)) (.single 5)) (.range (.val 2) (.val 4))) (.single 5)))
+    DomV c ∧ Written c ∧ LitsOK c ∧ extensible c = true ∧ visible ISet.univ c 2 = true ∧
+    computeTop perP (some (combined c)) = .ok { left := .val 2, right := .val 4, ext := true, notOER := true } ∧
     computeTop oerP (some (combined c)) = .ok { left := .val 2, right := .val 5 } := by
-  refine ⟨?_, ?_, rfl, by decide +kernel, by decide +kernel⟩
-  · simp [DomV, IsChainAny, IsLevelAny, IsLevelLast, IsSpec, IsElem]
-  · simp [LitsOK, EndOK, INTMAX_MIN, INTMAX_MAX]
+  refine ⟨?_, ?_, ?_, rfl, by decide +kernel, by decide +kernel, by decide +kernel⟩
+  · simp [DomV, IsChainAny, IsLevelAny, IsSpec, IsElem]
+  · simp [Written]
+  · simp [LitsOK, EndOK, ASN_INTEGER_MIN, ASN_INTEGER_MAX]
 
 end Asn1c.Props.C09
